@@ -19,7 +19,7 @@ ID = "C19"
 LEVEL = "exploration"
 RULE = ("scenario = proxy options {http_proxy_host/port, http_proxy_auth, http_no_proxy} x environment {http_proxy, "
         "HTTP_PROXY, https_proxy, HTTPS_PROXY, no_proxy, NO_PROXY} x scheme x target host (all dotted names of <=3 labels "
-        "over {a, b, ab}, IPv4 literals) x exemption list (hosts, leading-dot domains, '*', canonical CIDR blocks of "
+        "over {a, b, ab}, IPv4 literals, an IPv6 literal) x proxy_type {http, socks4, socks4a, socks5, socks5h: stand-in for python_socks} x exemption list (hosts, leading-dot domains, '*', canonical CIDR blocks of "
         "every prefix length 0..32 that do / do not contain the address) x proxy reply status x proxy URL with / without a "
         "port x target port x credentials (user+password, user only: RFC 7617 keeps the colon) x create_connection / WebSocketApp.run_forever x optional redirect to another (scheme, host), each hop taking its own decision.  Oracle = independent "
         "decision function written from the property sentence, compared with the address the simulated network saw "
